@@ -126,8 +126,8 @@ fn bgzf_twins(doc: &Doc, v: &mut Vec<Twin>) {
         blocks.push(Vec::new());
     }
     v.push(("empty-members-mid-stream".into(), ob::make_file(&blocks, true, 6).0));
-    // the first 24 payload bytes (magic, header length, start of the header) as 1-byte members
-    let n1 = 24.min(p.len());
+    // the first 8 payload bytes (magic, header length) as 1-byte members
+    let n1 = 8.min(p.len());
     let mut blocks: Vec<Vec<u8>> = p[..n1].iter().map(|&b| vec![b]).collect();
     let mut prev = n1;
     for &c in cuts.iter().filter(|&&c| c > n1) {
